@@ -32,7 +32,7 @@ Proof.
        (rev (skipn (n - k) out) ++ fst (Div.div_rem_digit_loop w (skipn k (rev a)) rhs rem),
         snd (Div.div_rem_digit_loop w (skipn k (rev a)) rhs rem))).
   - intros k [[out rem] i] (-> & Hk & Hlen & Hrem & Heq) Hc.
-    rewrite gtb_of_nat_0 in Hc. apply Nat.ltb_lt in Hc. split; [lia|].
+    rewrite ?Z.gtb_ltb, ltb_0_of_nat in Hc. apply Nat.ltb_lt in Hc. split; [lia|].
     rewrite (usub_ok (Z.of_nat (n - k)) 1) by lia. cbn [bind].
     replace (Z.of_nat (n - k) - 1) with (Z.of_nat (n - S k)) by lia.
     rewrite arr_get_nat by lia. cbn [bind].
@@ -40,14 +40,14 @@ Proof.
     rewrite (skipn_nth_cons (rev a) k) in Heq by (rewrite rev_length; lia). cbn [Div.div_rem_digit_loop] in Heq.
     rewrite rev_nth in Heq by lia. rewrite Ha in Heq.
     pose proof (div_rem_wide_ok w (nth (n - S k) a 0) rem rhs Hw) as [_ Hr'].
-    destruct (div_rem_wide w (nth (n - S k) a 0) rem rhs) as [q r1]. cbn [fst snd] in Hr'.
+    destruct (div_rem_wide w (nth (n - S k) a 0) rem rhs) as [q r1]. cbn [fst snd] in Hr' |- *.
     rewrite arr_set_nat by lia. cbn [bind].
     split; [reflexivity|]. split; [lia|]. split; [rewrite list_set_length; exact Hlen|]. split; [exact Hr'|].
     rewrite Heq. rewrite skipn_list_set_same by lia. replace (S (n - S k)) with (n - k)%nat by lia.
     destruct (Div.div_rem_digit_loop w (skipn (S k) (rev a)) rhs r1) as [qs rf].
     cbn [fst snd rev]. rewrite <- app_assoc. reflexivity.
   - intros k [[out rem] i] (-> & Hk & Hlen & Hrem & Heq) Hc.
-    rewrite gtb_of_nat_0 in Hc. apply Nat.ltb_ge in Hc. assert (k = n) by lia. subst k.
+    rewrite ?Z.gtb_ltb, ltb_0_of_nat in Hc. apply Nat.ltb_ge in Hc. assert (k = n) by lia. subst k.
     rewrite Heq. rewrite (skipn_all2 (rev a)) by (rewrite rev_length; lia). cbn [Div.div_rem_digit_loop fst snd].
     rewrite Nat.sub_diag. cbn [skipn]. rewrite app_nil_r, rev_involutive. reflexivity.
   - split; [f_equal; lia|]. split; [lia|]. split; [apply repeat_length|].
